@@ -58,6 +58,12 @@ def main():
         verdict = "exit %s" % f.get("exit", "?")
         rows.append(f"| {sid} | {m['property']} | {m['needs'].split(':')[0][:160]} | {e.get('first_trial', '?')} | {verdict}: " + "; ".join(by) + f" | {e.get('strengthening', '')} |")
     open(os.path.join(ROOT, "seeded", "TABLE.md"), "w").write("\n".join(rows) + "\n")
+    dp = os.path.join(ROOT, "DESIGN.md")
+    ds = open(dp).read()
+    a, b = "<!-- SEED-TABLE-BEGIN -->", "<!-- SEED-TABLE-END -->"
+    if a in ds and b in ds:
+        ds = ds[:ds.index(a) + len(a)] + "\n" + "\n".join(rows) + "\n" + ds[ds.index(b):]
+        open(dp, "w").write(ds)
     print("meta written for", len([s for s in SEEDS if os.path.isdir(os.path.join(ROOT, "seeded", s))]), "seeds")
 
 if __name__ == "__main__":
